@@ -206,6 +206,7 @@ type Out struct {
 	GE, EG       []byte
 	OTWires      []ot.Wire
 	EA           *simnet.Endpoint
+	Aborted      bool // the session stalled and was aborted
 }
 
 type otSpy struct {
@@ -220,13 +221,31 @@ func (s *otSpy) Send(wires []ot.Wire) error {
 
 // Run executes one streaming session.
 func Run(t *rt.Tape, c *Case, otKind int, pipe simnet.PipeConfig, trace bool) *Out {
+	return RunAbort(t, c, otKind, pipe, trace, false)
+}
+
+// RunAbort is Run; with abortOnStall a stalled session has both sockets
+// closed (as an operator would do) and the parties run on to what they return.
+func RunAbort(t *rt.Tape, c *Case, otKind int, pipe simnet.PipeConfig, trace, abortOnStall bool) *Out {
 	o := &Out{}
 	ea, eb := simnet.Pipe("G", "E", pipe)
 	o.EA = ea
 	spy := &otSpy{OT: twopc.NewOT(otKind, simrand.Stream("G-ot"))}
 	otE := twopc.NewOT(otKind, simrand.Stream("E-ot"))
 	params := NewParams(simrand.Stream("G-garble"))
-	o.RR = rt.Run(rt.Config{Trace: trace, NoProgress: core.NoProgressDefault, OnCrash: func(party string, _ *rt.Task) {
+	var onStall func() bool
+	if abortOnStall {
+		onStall = func() bool {
+			if o.Aborted || o.GDone && o.EDone {
+				return false // only connection-writer tasks are left
+			}
+			o.Aborted = true
+			ea.Abort()
+			eb.Abort()
+			return true
+		}
+	}
+	o.RR = rt.Run(rt.Config{Trace: trace, NoProgress: core.NoProgressDefault, OnStall: onStall, OnCrash: func(party string, _ *rt.Task) {
 		if party == "G" {
 			ea.Abort()
 		} else if party == "E" {
